@@ -1,6 +1,7 @@
 mod harness;
 mod obs;
 mod props;
+mod refmodel;
 mod refwalk;
 mod runner;
 mod world;
@@ -13,6 +14,7 @@ fn main() {
   }
   let id = args[1].clone();
   let code = match id.as_str() {
+    "C01" => runner::dispatch(props::c01::spec(), &args),
     "C03" => runner::dispatch(props::c03::spec(), &args),
     "C04" => runner::dispatch(props::c04::spec(), &args),
     "C14" => runner::dispatch(props::c14::spec(), &args),
